@@ -32,6 +32,9 @@ equal ...) that also drives the highlights, not with a criterion
 re-computed from the statistic. EXHAUSTIVE - each of the ten result
 kinds of the property resolves, through the reflective name dispatch, to a
 table_repr representer.
+HL-SOURCE - the non-constant highlights of every table built by a
+representer (directly or through a helper) depend on data recorded by the
+result (anything under `result.` but `result.test`), not only on the inputs.
 Not decided: validity of the emitted reStructuredText and read-back of the
 cells (docutils is not run); which bins end up in a detailed table
 (value-level selection by np.where).
@@ -55,6 +58,7 @@ def check(ctx):
     ctx.run(marks.check_hl_wrap)
     ctx.run(marks.check_len_aligned)
     ctx.run(marks.check_row_select)
+    ctx.run(marks.check_hl_source)
 
 
 def variants(program):
@@ -89,6 +93,30 @@ def variants(program):
     add('stats-highlight-column-too-short', 'mutant', TREPR,
         stats_short_column, {'LEN-ALIGNED'}, quick=True,
         note='the F13b defect: the total row is dropped')
+
+    def metadata_marks_from_text(tree):
+        # seed C12-r2-3: marks re-computed from the printed metadata
+        fun = find_func(tree, 'repr_metadata_full_details')
+        return replace_first(
+            fun, lambda n: isinstance(n, ast.UnaryOp) and 'dict_res' in
+            txt(n),
+            lambda n: parse_expr(
+                'str(result.test.all_md[dkey][nam]) != '
+                'str(result.test.all_md[dkey][min(samp_names)])'))
+    add('seed-metadata-marks-recomputed-from-the-text', 'mutant', TREPR,
+        metadata_marks_from_text, {'HL-SOURCE'},
+        note='100 vs 100.0 marked although equal; 2 vs "2" unmarked')
+
+    def metadata_flags_local(tree):
+        fun = find_func(tree, 'repr_metadata_full_details')
+        done = replace_first(
+            fun, lambda n: isinstance(n, ast.UnaryOp) and 'dict_res' in
+            txt(n), lambda n: parse_expr('not flags[dkey][nam]'))
+        idx = 1 if isinstance(fun.body[0], ast.Expr) else 0
+        fun.body.insert(idx, parse_stmts('flags = result.dict_res')[0])
+        return done
+    add('twin-metadata-flags-through-a-local', 'twin', TREPR,
+        metadata_flags_local)
 
     def equal_not_negated(tree):
         fun = find_func(tree, 'repr_equal')
